@@ -47,6 +47,11 @@ CLAIMED = {
          "For every generated message program the check enumerates EVERY byte offset at which the destination can start failing (complete for that program) and injects producer failures; the programs themselves are sampled by rapid, so the guarantee is exhaustive per shape and statistical across shapes.",
          "Sinks obey the io.Writer contract and keep failing once they failed; shapes limited to 0..3 parts, 0..2 embeds, 0..2 attachments with contents <= 90 bytes.",
          "DESIGN.md section 3, C12"),
+ "C14": ("exploration",
+         "differential testing of the client's SASL exchanges against independent reference verifiers written from the RFCs (PLAIN, LOGIN, CRAM-MD5, XOAUTH2, SCRAM-SHA-1/-256(-PLUS) with own PBKDF2 and the server's own channel-binding data), over rapid-generated credentials, wrong-credential twins, salts, iteration counts, nonce suffixes, TLS 1.2/1.3 and retries",
+         "Generated-input search with reference implementations as oracle (validated on the RFC 5802, 7677 and 6070 test vectors); sampled.",
+         "Unicode credentials are restricted to fixed points of SASLprep and PRECIS (no independent normaliser offline); NUL (and ^A for XOAUTH2) are not generated; SCRAM's local refusal of PRECIS-forbidden strings is a permitted outcome.",
+         "DESIGN.md section 3, C14"),
  "C17": ("fault_enumeration",
          "stall-point fault injection: the reference server goes silent at every enumerated step of the dial and send dialogues (incl. TLS handshake, AUTH challenges, inside DATA content with a bounded buffer) x TLS policy x auth class x call {DialWithContext, DialAndSend, Send, Reset} x timeout; oracle: the call returns a non-nil error within max(20 x timeout, 15 s), misses must repeat twice",
          "Complete for the enumerated stall points (one per command position per TLS mode and auth mechanism class); boundedness is observed with real clocks, not proved.",
